@@ -198,7 +198,7 @@ def main():
     setarch = have_setarch()
 
     # ---- designs -------------------------------------------------------------------------------
-    ngen = 120 if thorough else 14
+    ngen = 1500 if thorough else 40
     nbuilds = 3 if thorough else 2
     nshuffle = 5 if thorough else 3
     cycles = 24 if thorough else 12
@@ -532,6 +532,8 @@ def main():
                                       d, ref, s, "sim.trace", real), stimulus=stim, model=l), tag="cex")
     if broken and not rep.violations:
         rep.violation(dict(property=CID, kind="proof, tie or certificate broken; no failing input found", broken=broken), nofail=True, tag="tie")
+    if thorough and not rep.violations and not rep.known_hits:
+        shutil.rmtree(out, ignore_errors=True)     # several 100k small files; kept only when something has to be looked at
     rep.finish()
 
 
